@@ -41,8 +41,22 @@ def lpm(attached, name):
     return None
 
 
+def scribble(form):
+    """The caller reuses the buffers it passed in (legal: the call has returned)."""
+    items = form if isinstance(form, list) else [form]
+    for x in items:
+        if isinstance(x, memoryview) and not x.readonly:
+            x[:] = bytes(len(x))
+        elif isinstance(x, bytearray):
+            x[:] = bytes(len(x))
+
+
 def form_of(rng, comps):
-    k = rng.randrange(7)
+    k = rng.randrange(9)
+    if k == 7:
+        return bytearray(rc.enc_name(list(comps))), 'encoded-bytearray'
+    if k == 8:
+        return memoryview(bytearray(rc.enc_name(list(comps)))), 'encoded-memoryview' 
     comps = list(comps)
     if k == 0:
         return rc.name_to_uri(comps, canonical=True), 'uri'
@@ -78,6 +92,14 @@ class Target:
             self.app = appv1.NDNApp(face=self.face, keychain=KeychainDigest())
         self.main = asyncio.ensure_future(self.app.main_loop())
         await asyncio.sleep(0)
+
+    async def register_bare(self, form, S, ctx, rng):
+        """Announce a prefix to the forwarder without attaching a handler (register(name) with no callback): a scripted
+        forwarder answers 200.  No handler is attached by this."""
+        from .c17 import Forwarder
+        if getattr(self, 'fw', None) is None:
+            self.fw = Forwarder(self.face, self.kind, ['200'], ctx, rng, S)
+        return await asyncio.wait_for(self.app.register(form) if self.kind == 'v2' else self.app.register(form, None), 30)
 
     async def stop(self):
         if self.app is not None:
@@ -163,6 +185,8 @@ def run_history(ctx, rng, kind, ops, label):
                 try:
                     T.attach(form, hid, opts)
                     raised = None
+                    scribble(form)
+                    ctx.event('caller-buffers-reused-after-attach')
                 except Exception as e:   # noqa
                     raised = e
                 if pre in attached:
@@ -179,6 +203,18 @@ def run_history(ctx, rng, kind, ops, label):
                         ctx.event('attach')
                         if any(opts):
                             ctx.event('attach-with-delivery-options')
+            elif op[0] == 'register-bare':
+                form, fl = form_of(rng, tuple(op[1]))
+                w['form'] = fl
+                try:
+                    ok = await T.register_bare(form, S, ctx, rng)
+                    ctx.event('register-without-handler')
+                    if tuple(op[1]) not in attached:
+                        ctx.event('register-without-handler-on-free-prefix')
+                    if not ok:
+                        ctx.event('observation:bare-register-returned-false')
+                except Exception as e:   # noqa
+                    res['viol'].append((f'bare-register-raises:{kind}:{type(e).__name__}', f'register() without a handler raised {e!r}', w))
             elif op[0] == 'reconnect':
                 # the current front-end documents that handler associations survive the end of a connection; the legacy
                 # one clears its table by design, which the statement does not speak about: only v2 histories reconnect
@@ -197,6 +233,7 @@ def run_history(ctx, rng, kind, ops, label):
                 w['form'] = fl
                 try:
                     T.detach(form)
+                    scribble(form)
                     del attached[pre]
                     ctx.event('detach')
                 except Exception as e:   # noqa
@@ -377,6 +414,8 @@ def run(ctx):
                 ops.append(('attach', rng.choice(PREFIXES)))
             elif k < 0.40 and kind == 'v2':
                 ops.append(('reconnect', ()))
+            elif k < 0.44 and kind in ('v1', 'v2') and i % 2:
+                ops.append(('register-bare', rng.choice([p for p in PREFIXES if p])))
             elif k < 0.55:
                 ops.append(('detach', rng.choice(PREFIXES)))
             else:
@@ -384,7 +423,7 @@ def run(ctx):
         run_history(ctx, rng, kind, ops, 'random')
     check_reply(ctx, rng)
     for k in ('attach', 'detach', 'duplicate-attach', 'interest-hit', 'interest-miss', 'reply-sent', 'reply-late', 'attach-with-delivery-options',
-              'reconnect-with-handlers-attached'):
+              'reconnect-with-handlers-attached', 'register-without-handler-on-free-prefix'):
         ctx.need_event(k)
     ctx.assumptions = ['detaching a never-attached prefix and handler exceptions are outside the statement',
                        'the reply clause is judged on the current front-end (the legacy one has no reply callback)']
